@@ -194,16 +194,36 @@ def applyActivation (m : Mem) (ctx : Ctx) (b : BlockOp) (v : Int) : Except Strin
     return if b.ofm.signed then toSigned raw 8 else raw
   throw s!"unsupported:activation{act}"
 
+def oh0 (b : BlockOp) : Nat := b.ofm.height
+def ow0 (b : BlockOp) : Nat := b.ofm.width
+
 def execBlock (m : Mem) (ctx : Ctx) (b : BlockOp) (regs : RegFile) (w : Option Weights) : Except String Mem := do
-  if b.upscale ≠ 0 then throw "unsupported:upscale"
+  if b.upscale > 2 then throw "reserved upscale mode"
+  if b.upscale ≠ 0 ∧ b.kind == .elementwise then throw "unsupported:upscale-elementwise"
   if b.accFormat = 2 then throw "unsupported:fp16acc"
   if b.ofm.elemBytes = 4 ∨ b.ifm.elemBytes = 4 then throw "unsupported:int32"
   let some rounding := Rounding.ofBits (b.ofmPrecision / 16384 % 4) | throw "reserved rounding mode"
   let globalScale := b.ofmPrecision / 256 % 2 = 1
-  let ifm ← gather m b.ifm
-  let H := b.ifm.height
-  let W := b.ifm.width
+  let ifm0 ← gather m b.ifm
+  let H0 := b.ifm.height
+  let W0 := b.ifm.width
   let C := b.ifm.depth
+  -- IFM upscaling: the window runs over a 2x upscaled image. NEAREST replicates every element 2x2, TRANSPOSE
+  -- puts the element at the even position and elements that contribute nothing (the zero point) elsewhere.
+  -- The extent of the upscaled image is what the OFM extent, kernel, stride and padding imply.
+  let upH := if b.upscale = 0 then H0 else (oh0 b - 1) * b.strideY + b.kernelH - b.padTop - b.padBottom
+  let upW := if b.upscale = 0 then W0 else (ow0 b - 1) * b.strideX + b.kernelW - b.padLeft - b.padRight
+  if b.upscale ≠ 0 ∧ ((upH + 1) / 2 ≠ H0 ∨ (upW + 1) / 2 ≠ W0) then throw "upscaled extent inconsistent with the IFM extent"
+  let H := upH
+  let W := upW
+  let ifm : Array Int ← if b.upscale = 0 then pure ifm0 else do
+    let mut up : Array Int := Array.mkEmpty (H * W * C)
+    for y in [0:H] do
+      for x in [0:W] do
+        for c in [0:C] do
+          let v := if b.upscale = 1 ∨ (y % 2 = 0 ∧ x % 2 = 0) then ifm0.getD (((y / 2) * W0 + x / 2) * C + c) 0 else b.ifm.zeroPoint
+          up := up.push v
+    pure up
   let oh := b.ofm.height
   let ow := b.ofm.width
   let od := b.ofm.depth
